@@ -1892,7 +1892,25 @@ func checkConsumeAlwaysBooks(r *Run) {
 				return pol
 			}
 			// burnedout
-			return boolCond(cond, func(y ssa.Value) bool { return strings.HasSuffix(pathOf(y).FieldString(), "burnedout") })
+			return boolCond(cond, func(y ssa.Value) bool {
+				if strings.HasSuffix(pathOf(y).FieldString(), "burnedout") {
+					return true
+				}
+				// ... or through a getter whose every return is that field
+				if c, ok := y.(*ssa.Call); ok {
+					if sc := c.Call.StaticCallee(); sc != nil && sc.Blocks != nil && inRepo(sc) {
+						rets := returnsOf(sc)
+						all := len(rets) > 0
+						for _, ret := range rets {
+							if len(ret.Results) != 1 || !strings.HasSuffix(pathOf(ret.Results[0]).FieldString(), "burnedout") {
+								all = false
+							}
+						}
+						return all
+					}
+				}
+				return false
+			})
 		})
 		for i2 := range reachFromInstr(fn.Blocks[0].Instrs[0], allowed, func(i ssa.Instruction) bool { return i == call }) {
 			if _, isRet := i2.(*ssa.Return); isRet {
